@@ -189,7 +189,11 @@ impl Ctx {
       let items: Vec<ConcatSource> = cs.iter().map(|(_, child)| self.build_concat(child)).collect();
       return ConcatSource::new(items);
     }
-    if use_new && none_typed {
+    // (`new` over boxed items boxes each item once more, exactly like `add(x.boxed())`; a leaf that the `add` path hands over as its own
+    // type must therefore not go through `new`, or two equal-by-construction trees of different node counts would be built by different
+    // constructor calls and compare unequal — a false alarm of C20's thorough tier in round 14)
+    let typed_leaf = |child: &T| matches!(child, T::Raw(_) | T::RawB(_) | T::RawStr(_) | T::RawBuf(_) | T::Orig(..)) && crate::refmodel::ref_buf(child).len() % 2 == 0;
+    if use_new && none_typed && !cs.iter().any(|(_, child)| typed_leaf(child)) {
       let items: Vec<BoxSource> = cs.iter().map(|(_, child)| self.build(child)).collect();
       return ConcatSource::new(items);
     }
